@@ -5,7 +5,7 @@ use serde_json::{json, Value};
 use std::sync::Arc;
 use std::time::Duration;
 use tower::{Layer, Service};
-use tower_resilience_retry::{AimdBudget, ExponentialBackoff, ExponentialRandomBackoff, FixedInterval, RetryBudget, RetryLayer, TokenBucketBudget};
+use tower_resilience_retry::{ExponentialBackoff, ExponentialRandomBackoff, FixedInterval, RetryBudget, RetryLayer};
 
 type Svc = <RetryLayer<Req, IErr> as Layer<Inner>>::Service;
 pub struct RetryAd {
@@ -27,35 +27,54 @@ impl Adapter for RetryAd {
         json!({"hm": rng.below(4), "max": rng.below(5), "perReq": if rng.pct(30) { 1 } else { 0 }, "pred": *rng.pick(&["all", "noe2"]), "bo": bo,
                "b0": if bo == "rand" { 2 + 2 * rng.below(2) } else { 1 + rng.below(3) }, "cap": 4 + rng.below(5),
                "budget": if aimd { bmax } else { *rng.pick(&[-1i64, -1, 0, 1, 2, 3]) }, "bmax": if aimd { bmax } else { 3 },
-               "btype": if aimd { "aimd" } else { "tb" }, "bmin": 1, "cost": 1 + rng.below(2), "amount": 1 + rng.below(2), "fnum": *rng.pick(&[0u64, 2, 3, 4])})
+               "btype": if aimd { "aimd" } else { "tb" }, "ord": rng.below(12), "pre": rng.below(2), "alt": rng.below(2), "bctor": rng.below(3), "bmin": 1, "cost": 1 + rng.below(2), "amount": 1 + rng.below(2), "fnum": *rng.pick(&[0u64, 2, 3, 4])})
     }
     fn build(&mut self, cfg: &Value, sim: &mut Sim) {
         let u = |k: &str| cfg[k].as_u64().unwrap();
-        let mut b = RetryLayer::<Req, IErr>::builder();
-        if u("perReq") == 1 {
-            b = b.max_attempts_fn(|r: &Req| (r.key as usize).saturating_sub(1));
-        } else {
-            b = b.max_attempts(u("max") as usize);
-        }
+        type B = tower_resilience_retry::RetryConfigBuilder<Req, IErr>;
+        // every option is one step; cfg.ord picks the order in which the steps are applied and cfg.pre adds
+        // earlier settings that the real ones override (a builder's later setting wins, earlier ones survive others)
+        let mut steps: Vec<Box<dyn FnOnce(B) -> B>> = vec![];
+        let (per_req, max) = (u("perReq") == 1, u("max") as usize);
+        steps.push(Box::new(move |b: B| if per_req { b.max_attempts_fn(|r: &Req| (r.key as usize).saturating_sub(1)) } else { b.max_attempts(max) }));
         if cfg["pred"] == "noe2" {
-            b = b.retry_on(|e: &IErr| e.code != 2);
+            steps.push(Box::new(|b: B| b.retry_on(|e: &IErr| e.code != 2)));
+        } else if cfg["pre"].as_u64().unwrap_or(0) == 1 {
+            steps.push(Box::new(|b: B| b.retry_on(|_e: &IErr| true)));
         }
-        if cfg["bo"] == "fixed" {
-            b = b.backoff(FixedInterval::new(Duration::from_millis(u("b0"))));
-        } else if cfg["bo"] == "rand" {
-            b = b.backoff(ExponentialRandomBackoff::new(Duration::from_millis(u("b0")), 0.5).max_interval(Duration::from_millis(u("cap"))));
-        } else {
-            b = b.backoff(ExponentialBackoff::new(Duration::from_millis(u("b0"))).max_interval(Duration::from_millis(u("cap"))));
-        }
+        let (bo, b0, cap, alt) = (cfg["bo"].as_str().unwrap().to_string(), u("b0"), u("cap"), cfg["alt"].as_u64().unwrap_or(0) == 1);
+        steps.push(Box::new(move |b: B| {
+            if bo == "fixed" {
+                if alt { b.fixed_backoff(Duration::from_millis(b0)) } else { b.backoff(FixedInterval::new(Duration::from_millis(b0))) }
+            } else if bo == "rand" {
+                b.backoff(ExponentialRandomBackoff::new(Duration::from_millis(b0), 0.5).max_interval(Duration::from_millis(cap)))
+            } else {
+                b.backoff(ExponentialBackoff::new(Duration::from_millis(b0)).max_interval(Duration::from_millis(cap)))
+            }
+        }));
         let mut bud: Option<Arc<dyn RetryBudget>> = None;
         if cfg["budget"].as_i64().unwrap() >= 0 {
-            let x: Arc<dyn RetryBudget> = if cfg["btype"] == "aimd" {
-                Arc::new(AimdBudget::new(u("bmin") as usize, u("bmax") as usize, u("amount") as usize, u("cost") as usize, u("fnum") as f64 / 4.0))
-            } else {
-                Arc::new(TokenBucketBudget::new(0.0, u("bmax") as usize, cfg["budget"].as_u64().unwrap() as usize))
-            };
-            b = b.budget(x.clone());
+            let x: Arc<dyn RetryBudget> = crate::adapters::budget::mk_budget_cfg(
+                cfg["btype"].as_str().unwrap(), u("bmin") as usize, u("bmax") as usize, cfg["budget"].as_u64().unwrap() as usize,
+                u("amount") as usize, u("cost") as usize, u("fnum"), cfg["bctor"].as_u64().unwrap_or(0));
+            let x2 = x.clone();
+            steps.push(Box::new(move |b: B| b.budget(x2)));
             bud = Some(x);
+        }
+        steps.push(Box::new(|b: B| b.name("retry-under-test").on_retry(|_, _| {}).on_error(|_| {})));
+        let mut b = RetryLayer::<Req, IErr>::builder();
+        if cfg["pre"].as_u64().unwrap_or(0) == 1 {
+            b = b.max_attempts(9).retry_on(|_e: &IErr| false).fixed_backoff(Duration::from_millis(50));
+        }
+        // rotate / reverse the step list according to cfg.ord
+        let ord = cfg["ord"].as_u64().unwrap_or(0) as usize;
+        let n = steps.len();
+        if ord % 2 == 1 {
+            steps.reverse();
+        }
+        steps.rotate_left((ord / 2) % n);
+        for st in steps {
+            b = st(b);
         }
         self.svc = Some(Handles::new(b.build().layer(Inner::new(&sim.w)), cfg["hm"].as_u64().unwrap_or(0)));
         if let Some(x) = bud {
